@@ -125,8 +125,8 @@ func rulePanic(c *Ctx, prefix string, fns []*ssa.Function, pred map[*ssa.Functio
 			c.R.Add(o)
 		}
 		// sites never reached by the exploration (dead code) are still listed
-		for _, b := range fn.Blocks {
-			for _, in := range b.Instrs {
+		for _, in := range viewInstrs(fn) {
+			{
 				if what, ok := panicSite(in); ok && !seenSite[in] {
 					c.R.ok(rule, fmt.Sprintf("%s %s (unreachable)", shortFn(fn), what), c.P.InstrPos(in), shortFn(fn), "no abstract path reaches the site (branch conditions are contradictory)")
 				}
@@ -420,6 +420,10 @@ func ruleNoBlock(c *Ctx, prefix string, fns []*ssa.Function, pred map[*ssa.Funct
 				}
 			case strings.HasPrefix(hb.Comment, "rangechan."):
 				kind = ""
+			default:
+				if cl := CountedLoopAt(fn, h); cl != nil && LoopInvariant(fn, h, cl.Bound) {
+					kind = fmt.Sprintf("counted loop: index steps by %d towards a loop-invariant bound", cl.Step)
+				}
 			}
 			key := fmt.Sprintf("%s loop#%d", shortFn(fn), i+1)
 			pos := c.P.InstrPos(hb.Instrs[0])
